@@ -47,9 +47,13 @@ def make_frames():
     d2 = pd.DataFrame({"a": [10.0, 11.5, 9.25, 12.0, 8.5, 10.75], "b": [1.5, 7.0, 3.25, 2.0, 6.5, 4.0],
                        "A": pd.Series(["v", "w", "v", "w", "w", "v"], dtype=object),
                        "B": pd.Categorical(["q", "r", "p", "q", "r", "p"], categories=["r", "p", "q"])})
+    # same columns as d0, but the column that holds text elsewhere (A) holds numbers here
+    d3 = pd.DataFrame({"a": [2.0, -1.5, 0.25, 5.0, 3.5, 1.0, -0.5, 4.25], "b": [6.0, 2.5, 7.0, 1.5, 4.5, 3.0, 8.0, 5.5],
+                       "A": [3.0, 1.0, 2.0, 1.0, 3.0, 2.0, 1.0, 2.0],
+                       "B": pd.Categorical(["p", "q", "r", "p", "q", "r", "p", "q"], categories=["r", "p", "q"])})
     # plain dict-of-columns input (the pandas materializer builds its own frame from it)
     dd = {"a": np.array(a), "b": list(b), "A": list(A), "B": np.array(B, dtype=object)}
-    return {"d0": d0, "d1": d1, "d2": d2, "dd": dd}
+    return {"d0": d0, "d1": d1, "d2": d2, "d3": d3, "dd": dd}
 
 
 def _double(x):
@@ -142,8 +146,31 @@ def _ctx_equal(a, b):
     return None
 
 
+def _attrs(obj):
+    """repr of every attribute an object carries (slots and/or __dict__), by name."""
+    names = []
+    for klass in type(obj).__mro__:
+        names += [n for n in getattr(klass, "__slots__", ()) if isinstance(n, str)]
+    names += list(getattr(obj, "__dict__", {}))
+    out = []
+    for name in dict.fromkeys(names):
+        if name.startswith("__") or not hasattr(obj, name):
+            continue
+        v = getattr(obj, name)
+        out.append((name, _attrs(v) if type(v).__name__ == "Token" else repr(v)))
+    return out
+
+
 def _formula_state(F):
-    return [(repr(p), [str(t) for t in leaf], str(getattr(leaf, "ordering", None))) for p, leaf in _leaves(F)]
+    """Deep snapshot of a formula: per part the ordering and, per term, its printed form, origin and every
+    attribute of every factor (expr, eval method, kind, metadata, token)."""
+    state = []
+    for p, leaf in _leaves(F):
+        terms = []
+        for t in leaf:
+            terms.append((str(t), repr(getattr(t, "origin", None)), [_attrs(f) for f in t.factors]))
+        state.append((repr(p), str(getattr(leaf, "ordering", None)), terms))
+    return state
 
 
 def run_history(ops):
@@ -179,6 +206,10 @@ def run_history(ops):
                 key, sp = live_spec(op[1])
                 if (key, op[3]) not in shared_S:
                     shared_S[(key, op[3])] = ModelSpec.from_spec(sp, output=op[3])
+                    fkey = "ModelSpec.from_spec(" + key + ", output=" + op[3] + ").formula"
+                    held = shared_S[(key, op[3])]
+                    shared_F[fkey] = held.formula if hasattr(held, "formula") else held._map(lambda ms: ms.formula)
+                    shared_F_before[fkey] = _formula_state(shared_F[fkey])
                 res = shared_S[(key, op[3])].get_model_matrix(D[op[2]], context=CTX, drop_rows=S)
             elif kind == "reuse":
                 prev = results[op[1]]
@@ -225,7 +256,9 @@ def run_history(ops):
         for key in shared_F:
             now = _formula_state(shared_F[key])
             if now != shared_F_before[key]:
-                mutations.append({"what": "formula", "after_call": i, "object": "Formula(" + key + ")", "detail": f"{shared_F_before[key]} -> {now}"})
+                changed = [(b4, nw) for b4, nw in zip(shared_F_before[key], now) if b4 != nw] or [(shared_F_before[key], now)]
+                mutations.append({"what": "formula", "after_call": i, "object": key if key.startswith("ModelSpec") else "Formula(" + key + ")",
+                                  "detail": f"{changed[0][0]} -> {changed[0][1]}"[:600]})
                 shared_F_before[key] = now
     return {"calls": calls, "mutations": mutations}
 
